@@ -1,14 +1,1008 @@
 import DS.Model.Dec
 /-!
-# Per-format record models (M4) — see below; driver handler `fmtHandle` at the end.
+# Per-format record models (M4): what each writer prints and what each reader makes of it
+
+Every format `f` has
+
+* a document type `FS` — exactly the quantities `P_f.toLines` reads off a `Structure` (the harness
+  fills it through the public API: `a.xyz_cartn`, `a.Bisoequiv`, `lattice.abcABG()` …, as the exact
+  fractions of the doubles),
+* `writeF : FS → List Str`   — the lines `toLines` returns,
+* `parseF : List Str → Except PErr FS` — the control flow of `parseLines` on arbitrary lines,
+* `quantF : FS → FS`   — every carried quantity rounded to the printed precision, text fields
+  normalised the way the reader does,
+* `reprF : FS → Bool`  — the decidable representable range the round-trip proof needs.
+
+`writeTextF = toText ∘ writeF` and `parseTextF = parseF ∘ ofText` are `tostring` / `parse`.
+The theorems are in `DS.Lemmas.Formats` / `DS.Props.C04`.
 -/
 namespace DS.Formats
 open DS.Dec
+
+/-- exception kinds a reader raises -/
+inductive PErr where
+  | sfe      -- StructureFormatError
+  | notImpl  -- NotImplementedError
+  | unmodelled  -- the reader continues with lattice algebra that this text model does not contain
+                -- (supercell folding of `ncell` records); never reached on written text
+deriving DecidableEq, Repr
+
+abbrev PRes := Except PErr
+
+instance [DecidableEq α] : DecidableEq (PRes α)
+  | .ok a, .ok b => if h : a = b then isTrue (congrArg _ h) else isFalse (fun e => h (Except.ok.inj e))
+  | .error a, .error b => if h : a = b then isTrue (congrArg _ h) else isFalse (fun e => h (Except.error.inj e))
+  | .ok _, .error _ => isFalse (fun e => by cases e)
+  | .error _, .ok _ => isFalse (fun e => by cases e)
+
+/-- element symbols the models handle: non-empty printable ASCII without blanks (so that Python's
+`upper()/lower()` are the ASCII maps and `split()` keeps the symbol as one token) -/
+def elemOk (e : Str) : Bool := !e.isEmpty && e.all isGraphA
+
+/-- a title / free text line: no line break -/
+def lineOk (t : Str) : Bool := t.all (fun c => c != '\n' && c != '\r')
+
+/-! ## XYZ  (`p_xyz.py`) and raw XYZ (`p_rawxyz.py`) -/
+
+/-- element and Cartesian coordinates -/
+structure PAtom where
+  el : Str
+  x : Rat
+  y : Rat
+  z : Rat
+deriving DecidableEq
+
+structure XyzS where
+  title : Str
+  atoms : List PAtom
+deriving DecidableEq
+
+/-- `len(field) == 0 or field[0] == "#"` -/
+def isSkip (f : List Str) : Bool :=
+  match f with
+  | [] => true
+  | w :: _ => w == ['#']
+
+/-- `str(int(w)) == w`: the canonical decimal integers -/
+def canonInt (w : Str) : Option Int :=
+  match w with
+  | '-' :: r =>
+    if allDigits r && !r.isEmpty && r.head? != some '0' then some (-(numOf r : Int)) else none
+  | _ =>
+    if allDigits w && !w.isEmpty && (w == ['0'] || w.head? != some '0') then some (numOf w : Int) else none
+
+/-- `%-3s %g %g %g` -/
+def xyzLine (a : PAtom) : Str :=
+  padRight 3 a.el ++ ' ' :: (fmtG 6 a.x ++ ' ' :: (fmtG 6 a.y ++ ' ' :: fmtG 6 a.z))
+
+def writeXyz (d : XyzS) : List Str :=
+  natDigits d.atoms.length :: d.title :: d.atoms.map xyzLine
+
+/-- the record loop of `P_xyz.parseLines` (`nfields = 4`) -/
+def xyzAtoms : List (List Str) → PRes (List PAtom)
+  | [] => .ok []
+  | [] :: rest => xyzAtoms rest
+  | [e, a, b, c] :: rest =>
+    match parseDec a, parseDec b, parseDec c with
+    | some x, some y, some z =>
+      match xyzAtoms rest with
+      | .ok as => .ok (⟨capitalize e, x, y, z⟩ :: as)
+      | .error k => .error k
+    | _, _, _ => .error .sfe
+  | _ :: _ => .error .sfe
+
+def parseXyz (lines : List Str) : PRes XyzS :=
+  let fields := lines.map splitWs
+  let start := (fields.takeWhile isSkip).length
+  match fields.drop start with
+  | [w1] :: _ =>
+    match canonInt w1 with
+    | none => .error .sfe
+    | some n =>
+      -- `lines[start + 1].strip() if start + 1 < len(lines) else ""`
+      let title := match lines.drop (start + 1) with
+        | tl :: _ => strip tl
+        | [] => []
+      let rest := fields.drop (start + 2)
+      if n = 0 ∨ rest.all List.isEmpty = true then .ok ⟨title, []⟩
+      else match rest with
+        | [] => .ok ⟨title, []⟩
+        | f :: _ =>
+          if f.length ≠ 4 then .error .sfe else
+          match xyzAtoms rest with
+          | .error k => .error k
+          | .ok atoms => if (atoms.length : Int) = n then .ok ⟨title, atoms⟩ else .error .sfe
+  | _ => .error .sfe
+
+def quantPAtomCap (a : PAtom) : PAtom := ⟨capitalize a.el, roundSig 6 a.x, roundSig 6 a.y, roundSig 6 a.z⟩
+
+def quantXyz (d : XyzS) : XyzS := ⟨strip d.title, d.atoms.map quantPAtomCap⟩
+
+def pAtomOk (a : PAtom) : Bool := elemOk a.el
+
+/-- the range of the XYZ format: a one-line title, element symbols that are single tokens -/
+def rangeXyz (d : XyzS) : Bool := lineOk d.title && d.atoms.all pAtomOk
+
+/-- representable in XYZ (since the repair 9dc2009 of `P_xyz.parseLines` an atom-less structure with
+a blank title is readable too: `parse` strips the final line breaks, the reader takes the missing
+title line as an empty title) -/
+def reprXyz (d : XyzS) : Bool := rangeXyz d
+
+def writeTextXyz (d : XyzS) : Str := toText (writeXyz d)
+def parseTextXyz (t : Str) : PRes XyzS := parseXyz (ofText t)
+
+/-! ### raw XYZ -/
+
+/-- `utils.isfloat`: `float(s)` succeeds (decimal literals, `inf`, `nan`, `infinity`) -/
+def isFloatTok (s : Str) : Bool :=
+  let t := lower (match s with | '-' :: r => r | '+' :: r => r | _ => s)
+  (parseDec s).isSome || t == "inf".toList || t == "nan".toList || t == "infinity".toList
+
+/-- `("%s %g %g %g" % …).lstrip()` -/
+def rawLine (a : PAtom) : Str :=
+  lstrip (a.el ++ ' ' :: (fmtG 6 a.x ++ ' ' :: (fmtG 6 a.y ++ ' ' :: fmtG 6 a.z)))
+
+def writeRaw (atoms : List PAtom) : List Str := atoms.map rawLine
+
+/-- record loop of `P_rawxyz.parseLines`; `withEl` = the first record has an element column;
+`nf` = its number of columns -/
+def rawAtoms (withEl : Bool) (nf : Nat) : List (List Str) → PRes (List PAtom)
+  | [] => .ok []
+  | [] :: rest => rawAtoms withEl nf rest
+  | f :: rest =>
+    if f.length ≠ nf then .error .sfe else
+    let el := if withEl then f.headD [] else []
+    let xs := (if withEl then f.drop 1 else f).take 3
+    match xs.mapM parseDec with
+    | none => .error .sfe
+    | some vs =>
+      -- `if len(xyz) == 2: xyz.append(0.0)` cannot happen for nf ∈ {3,4} with the layouts accepted
+      match vs, rawAtoms withEl nf rest with
+      | [x, y, z], .ok as => .ok (⟨el, x, y, z⟩ :: as)
+      | _, .error k => .error k
+      | _, _ => .error .sfe
+
+def parseRaw (lines : List Str) : PRes (List PAtom) :=
+  let fields := lines.map splitWs
+  let rest := fields.dropWhile isSkip
+  if rest.all List.isEmpty = true then .ok [] else
+  match rest with
+  | [] => .ok []
+  | f :: _ =>
+    let ff := f.map isFloatTok
+    if f.length ≠ 3 ∧ f.length ≠ 4 then .error .sfe
+    else if ff.take 3 = [true, true, true] then rawAtoms false f.length rest
+    else if ff.take 4 = [false, true, true, true] then rawAtoms true f.length rest
+    else .error .sfe
+
+def quantPAtom (a : PAtom) : PAtom := ⟨a.el, roundSig 6 a.x, roundSig 6 a.y, roundSig 6 a.z⟩
+def quantRaw (atoms : List PAtom) : List PAtom := atoms.map quantPAtom
+
+/-- element column of raw XYZ: a single token that is not itself a number and not the comment
+mark; or no element at all — but then for every atom (the layout is fixed by the first record) -/
+def rawElOk (e : Str) : Bool := elemOk e && !isFloatTok e && e != ['#']
+
+def reprRaw (atoms : List PAtom) : Bool :=
+  atoms.all (fun a => rawElOk a.el) || atoms.all (fun a => a.el.isEmpty)
+
+def writeTextRaw (d : List PAtom) : Str := toText (writeRaw d)
+def parseTextRaw (t : Str) : PRes (List PAtom) := parseRaw (ofText t)
+
+
+/-! ## DISCUS (`p_discus.py`) and PDFfit (`p_pdffit.py`) -/
+
+structure V3 where
+  x : Rat
+  y : Rat
+  z : Rat
+deriving DecidableEq
+
+structure Cell6 where
+  a : Rat
+  b : Rat
+  c : Rat
+  al : Rat
+  be : Rat
+  ga : Rat
+deriving DecidableEq
+
+def Cell6.default : Cell6 := ⟨1, 1, 1, 90, 90, 90⟩
+def Cell6.toList (c : Cell6) : List Rat := [c.a, c.b, c.c, c.al, c.be, c.ga]
+def Cell6.map (f : Rat → Rat) (c : Cell6) : Cell6 := ⟨f c.a, f c.b, f c.c, f c.al, f c.be, f c.ga⟩
+
+/-- `lattice.setLatPar(*vals)`: positional, missing parameters keep their value -/
+def Cell6.update (c : Cell6) : List Rat → Cell6
+  | [] => c
+  | [a] => { c with a := a }
+  | [a, b] => { c with a := a, b := b }
+  | [a, b, c'] => { c with a := a, b := b, c := c' }
+  | [a, b, c', al] => { c with a := a, b := b, c := c', al := al }
+  | [a, b, c', al, be] => { c with a := a, b := b, c := c', al := al, be := be }
+  | a :: b :: c' :: al :: be :: ga :: _ => ⟨a, b, c', al, be, ga⟩
+
+/-- necessary and sufficient for a non-degenerate cell: positive lengths and angles that are the
+sides of a proper spherical triangle (then `1 - cos²α - cos²β - cos²γ + 2 cosα cosβ cosγ > 0`);
+`Lattice` accepting exactly these is C01's subject, here it is part of the representable range -/
+def Cell6.ok (c : Cell6) : Bool :=
+  decide (0 < c.a) && decide (0 < c.b) && decide (0 < c.c) &&
+  decide (0 < c.al) && decide (0 < c.be) && decide (0 < c.ga) &&
+  decide (c.al < 180) && decide (c.be < 180) && decide (c.ga < 180) &&
+  decide (c.al + c.be + c.ga < 360) &&
+  decide (c.al < c.be + c.ga) && decide (c.be < c.al + c.ga) && decide (c.ga < c.al + c.be)
+
+def kwTitle : Str := ['t', 'i', 't', 'l', 'e']
+def kwSpcgr : Str := ['s', 'p', 'c', 'g', 'r']
+def kwShape : Str := ['s', 'h', 'a', 'p', 'e']
+def kwSphere : Str := ['s', 'p', 'h', 'e', 'r', 'e']
+def kwStepcut : Str := ['s', 't', 'e', 'p', 'c', 'u', 't']
+def kwCell : Str := ['c', 'e', 'l', 'l']
+def kwDcell : Str := ['d', 'c', 'e', 'l', 'l']
+def kwNcell : Str := ['n', 'c', 'e', 'l', 'l']
+def kwAtoms : Str := ['a', 't', 'o', 'm', 's']
+def kwFormat : Str := ['f', 'o', 'r', 'm', 'a', 't']
+def kwPdffit : Str := ['p', 'd', 'f', 'f', 'i', 't']
+def kwScale : Str := ['s', 'c', 'a', 'l', 'e']
+def kwSharp : Str := ['s', 'h', 'a', 'r', 'p']
+def kwGenerator : Str := ['g', 'e', 'n', 'e', 'r', 'a', 't', 'o', 'r']
+def kwMolecule : Str := ['m', 'o', 'l', 'e', 'c', 'u', 'l', 'e']
+def kwSymmetry : Str := ['s', 'y', 'm', 'm', 'e', 't', 'r', 'y']
+def sp (k : Nat) : Str := List.replicate k ' '
+
+/-- `sep.join(fields)` -/
+def joinSep (sep : Str) : List Str → Str
+  | [] => []
+  | [f] => f
+  | f :: g :: gs => f ++ sep ++ joinSep sep (g :: gs)
+/-- `", ".join(fields)` -/
+def csv (fs : List Str) : Str := joinSep [',', ' '] fs
+/-- `" ".join(fields)` -/
+def ssv (fs : List Str) : Str := joinSep [' '] fs
+
+/-- lines before the trailing blank ones (`while stop > 0 and lines[stop-1].strip() == ""`) -/
+def dropTrailingBlank (lines : List Str) : List Str :=
+  (lines.reverse.dropWhile (fun l => (strip l).isEmpty)).reverse
+
+/-- `line.lstrip()[5:].strip()` — also what `line[line.find("spcgr")+5:].strip()` is on a line whose
+first word is `spcgr` -/
+def afterKw (line : Str) : Str := strip ((lstrip line).drop 5)
+
+/-- `_parse_shape`: `(spdiameter, stepcut)` update -/
+def shapeRecord (words : List Str) (tyWords : List Str) (spd stepcut : Rat) : PRes (Rat × Rat) :=
+  match tyWords with
+  | _ :: st :: _ =>
+    if st = kwSphere then
+      match words with
+      | _ :: _ :: w2 :: _ => match parseDec w2 with
+        | some v => .ok (v, stepcut)
+        | none => .error .sfe
+      | _ => .error .sfe
+    else if st = kwStepcut then
+      match words with
+      | _ :: _ :: w2 :: _ => match parseDec w2 with
+        | some v => .ok (spd, v)
+        | none => .error .sfe
+      | _ => .error .sfe
+    else .error .sfe
+  | _ => .error .sfe
+
+structure DAtom where
+  el : Str
+  pos : V3
+  b : Rat
+deriving DecidableEq
+
+structure DiscusS where
+  title : Str
+  spcgr : Str
+  spd : Rat
+  stepcut : Rat
+  cell : Cell6
+  atoms : List DAtom
+deriving DecidableEq
+
+def discusAtomLine (a : DAtom) : Str :=
+  ssv [padRight 4 (upper a.el), fmtF 17 8 a.pos.x, fmtF 17 8 a.pos.y, fmtF 17 8 a.pos.z, fmtF 12 4 a.b]
+
+def shapeLines (spd stepcut : Rat) : List Str :=
+  (if 0 < spd then [kwShape ++ sp 3 ++ kwSphere ++ [',', ' '] ++ fmtG 6 spd] else []) ++
+  (if 0 < stepcut then [kwShape ++ sp 3 ++ kwStepcut ++ [',', ' '] ++ fmtG 6 stepcut] else [])
+
+def cellLine (kw : Str) (k : Nat) (c : Cell6) : Str := kw ++ sp k ++ csv (c.toList.map (fmtF 9 6))
+
+def ncellLine (n : Nat) : Str := kwNcell ++ sp 2 ++ csv [fmtI 9 1, fmtI 9 1, fmtI 9 1, fmtI 9 n]
+
+def writeDiscus (d : DiscusS) : List Str :=
+  [strip (kwTitle ++ sp 3 ++ d.title), kwSpcgr ++ sp 3 ++ d.spcgr] ++ shapeLines d.spd d.stepcut ++
+  [cellLine kwCell 3 d.cell, ncellLine d.atoms.length, kwAtoms] ++ d.atoms.map discusAtomLine
+
+structure DHdr where
+  title : Str
+  spcgr : Str
+  spd : Rat
+  stepcut : Rat
+  cell : Cell6
+  cellRead : Bool
+  ncell : Option (List Int)
+
+def DHdr.init : DHdr := ⟨[], ['P', '1'], 0, 0, Cell6.default, false, none⟩
+
+/-- one header record of `P_discus.parseLines` (dispatch on the first word) -/
+def discusRecord (h : DHdr) (line : Str) (words : List Str) (w0 : Str) : PRes DHdr :=
+  if w0 = kwCell then
+    match (((splitWs (commasToBlanks line)).drop 1).take 6).mapM parseDec with
+    | none => .error .sfe
+    | some vs => .ok { h with cell := h.cell.update vs, cellRead := true }
+  else if w0 = kwFormat then
+    match words with
+    | _ :: w1 :: _ => if w1 = kwPdffit then .error .sfe else .ok h
+    | _ => .error .sfe
+  else if w0 = kwGenerator ∨ w0 = kwMolecule ∨ w0 = kwSymmetry then .error .notImpl
+  else if w0 = kwNcell then
+    match (((splitWs (commasToBlanks line)).drop 1).take 4).mapM parseInt with
+    | none => .error .sfe
+    | some vs => .ok { h with ncell := some vs }
+  else if w0 = kwSpcgr then .ok { h with spcgr := (words.drop 1).flatten }
+  else if w0 = kwTitle then .ok { h with title := afterKw line }
+  else if w0 = kwShape then
+    match shapeRecord words (splitWs (commasToBlanks (ssv words))) h.spd h.stepcut with
+    | .ok (a, b) => .ok { h with spd := a, stepcut := b }
+    | .error k => .error k
+  else .ok h
+
+def discusHeader : List Str → DHdr → PRes (DHdr × List Str)
+  | [], h => .ok (h, [])
+  | line :: rest, h =>
+    match splitWs line with
+    | [] => discusHeader rest h
+    | w0 :: ws =>
+      if w0.head? = some '#' then discusHeader rest h
+      else if w0 = kwAtoms then .ok (h, rest)
+      else match discusRecord h line (w0 :: ws) w0 with
+        | .error k => .error k
+        | .ok h' => discusHeader rest h'
+
+def discusAtoms : List Str → PRes (List DAtom)
+  | [] => .ok []
+  | line :: rest =>
+    match splitWs (commasToBlanks line) with
+    | [] => discusAtoms rest
+    | w0 :: ws =>
+      if w0.head? = some '#' then discusAtoms rest else
+      match ws with
+      | a :: b :: c :: d :: _ =>
+        match parseDec a, parseDec b, parseDec c, parseDec d with
+        | some x, some y, some z, some bb =>
+          match discusAtoms rest with
+          | .ok as => .ok (⟨capitalize w0, ⟨x, y, z⟩, bb⟩ :: as)
+          | .error k => .error k
+        | _, _, _, _ => .error .sfe
+      | _ => .error .sfe
+
+def intProd (l : List Int) : Int := l.foldl (· * ·) 1
+
+def parseDiscus (lines : List Str) : PRes DiscusS :=
+  match discusHeader (dropTrailingBlank lines) DHdr.init with
+  | .error k => .error k
+  | .ok (h, rest) =>
+    if h.cellRead = false then .error .sfe else
+    match discusAtoms rest with
+    | .error k => .error k
+    | .ok atoms =>
+      match h.ncell with
+      | some nc =>
+        if intProd nc ≠ (atoms.length : Int) then .error .sfe
+        else if nc.take 3 ≠ [1, 1, 1] then .error .unmodelled
+        else .ok ⟨h.title, h.spcgr, h.spd, h.stepcut, h.cell, atoms⟩
+      | none => .ok ⟨h.title, h.spcgr, h.spd, h.stepcut, h.cell, atoms⟩
+
+def noWsStr (s : Str) : Str := s.filter (fun c => !isWs c)
+
+def quantShape (v : Rat) : Rat := if 0 < v then roundSig 6 v else 0
+
+def quantDAtom (a : DAtom) : DAtom :=
+  ⟨capitalize (upper a.el), ⟨roundTo 8 a.pos.x, roundTo 8 a.pos.y, roundTo 8 a.pos.z⟩, roundTo 4 a.b⟩
+
+def quantDiscus (d : DiscusS) : DiscusS :=
+  ⟨strip d.title, noWsStr d.spcgr, quantShape d.spd, quantShape d.stepcut, d.cell.map (roundTo 6),
+   d.atoms.map quantDAtom⟩
+
+/-- element column of DISCUS / PDFfit: one printable token without the separator `,` and not a
+comment mark -/
+def elemOkD (e : Str) : Bool := elemOk e && e.all (· != ',') && e.head? != some '#'
+
+def rangeDiscus (d : DiscusS) : Bool :=
+  lineOk d.title && lineOk d.spcgr && d.atoms.all (fun a => elemOkD a.el)
+
+def reprDiscus (d : DiscusS) : Bool := rangeDiscus d
+
+def writeTextDiscus (d : DiscusS) : Str := toText (writeDiscus d)
+def parseTextDiscus (t : Str) : PRes DiscusS := parseDiscus (ofText t)
+
+/-! ### PDFfit -/
+
+structure PFAtom where
+  el : Str
+  pos : V3
+  occ : Rat
+  sigpos : V3
+  sigo : Rat
+  uii : V3
+  suii : V3
+  uij : V3
+  suij : V3
+deriving DecidableEq
+
+structure PdffitS where
+  title : Str
+  scale : Rat
+  delta2 : Rat
+  delta1 : Rat
+  sratio : Rat
+  rcut : Rat
+  spcgr : Str
+  spd : Rat
+  stepcut : Rat
+  cell : Cell6
+  dcell : Cell6
+  atoms : List PFAtom
+deriving DecidableEq
+
+def f3 (v : V3) : List Str := [fmtF 18 8 v.x, fmtF 17 8 v.y, fmtF 17 8 v.z]
+
+def pdffitAtomLines (a : PFAtom) : List Str :=
+  [ ssv [padRight 4 (upper a.el), fmtF 17 8 a.pos.x, fmtF 17 8 a.pos.y, fmtF 17 8 a.pos.z, fmtF 12 4 a.occ],
+    sp 4 ++ ssv (f3 a.sigpos ++ [fmtF 12 4 a.sigo]),
+    sp 4 ++ ssv (f3 a.uii), sp 4 ++ ssv (f3 a.suii), sp 4 ++ ssv (f3 a.uij), sp 4 ++ ssv (f3 a.suij) ]
+
+def writePdffit (d : PdffitS) : List Str :=
+  [ strip (kwTitle ++ sp 2 ++ d.title),
+    kwFormat ++ sp 1 ++ kwPdffit,
+    kwScale ++ sp 2 ++ fmtF 9 6 d.scale,
+    kwSharp ++ sp 2 ++ csv [fmtF 9 6 d.delta2, fmtF 9 6 d.delta1, fmtF 9 6 d.sratio, fmtF 9 6 d.rcut],
+    kwSpcgr ++ sp 3 ++ d.spcgr ] ++ shapeLines d.spd d.stepcut ++
+  [ cellLine kwCell 3 d.cell, cellLine kwDcell 2 d.dcell, ncellLine d.atoms.length, kwAtoms ] ++
+  (d.atoms.map pdffitAtomLines).flatten
+
+structure PHdr where
+  title : Str
+  scale : Rat
+  delta2 : Rat
+  delta1 : Rat
+  sratio : Rat
+  rcut : Rat
+  spcgr : Str
+  spd : Rat
+  stepcut : Rat
+  cell : Cell6
+  cellRead : Bool
+  dcell : Cell6
+  ncell : List Int
+
+def PHdr.init : PHdr := ⟨[], 1, 0, 0, 1, 0, ['P', '1'], 0, 0, Cell6.default, false, ⟨0, 0, 0, 0, 0, 0⟩, [1, 1, 1, 0]⟩
+
+/-- `dcell` list → six numbers (the reader stores whatever it found; fewer than six make the
+writer fail later — outside the written texts) -/
+def cellOfList : List Rat → Option Cell6
+  | [a, b, c, al, be, ga] => some ⟨a, b, c, al, be, ga⟩
+  | _ => none
+
+def pdffitRecord (h : PHdr) (line : Str) (words : List Str) (w0 : Str) : PRes PHdr :=
+  let cw := splitWs (commasToBlanks line)
+  if w0 = kwTitle then .ok { h with title := afterKw line }
+  else if w0 = kwScale then
+    match words with
+    | _ :: w1 :: _ => match parseDec w1 with
+      | some v => .ok { h with scale := v }
+      | none => .error .sfe
+    | _ => .error .sfe
+  else if w0 = kwSharp then
+    match (cw.drop 1).mapM parseDec with
+    | none => .error .sfe
+    | some [a, b, c] => .ok { h with delta2 := a, sratio := b, rcut := c }
+    | some (a :: b :: c :: d :: _) => .ok { h with delta2 := a, delta1 := b, sratio := c, rcut := d }
+    | some _ => .error .sfe
+  else if w0 = kwSpcgr then .ok { h with spcgr := afterKw line }
+  else if w0 = kwShape then
+    match shapeRecord cw cw h.spd h.stepcut with
+    | .ok (a, b) => .ok { h with spd := a, stepcut := b }
+    | .error k => .error k
+  else if w0 = kwCell then
+    match ((cw.drop 1).take 6).mapM parseDec with
+    | none => .error .sfe
+    | some [] => .ok { h with cell := Cell6.default, cellRead := true }
+    | some vs => match cellOfList vs with
+      | some c => .ok { h with cell := c, cellRead := true }
+      | none => .error .sfe
+  else if w0 = kwDcell then
+    match ((cw.drop 1).take 6).mapM parseDec with
+    | none => .error .sfe
+    | some vs => match cellOfList vs with
+      | some c => .ok { h with dcell := c }
+      | none => .error .unmodelled
+  else if w0 = kwNcell then
+    match ((cw.drop 1).take 4).mapM parseInt with
+    | none => .error .sfe
+    | some vs => .ok { h with ncell := vs }
+  else if w0 = kwFormat then
+    match words with
+    | _ :: w1 :: _ => if w1 ≠ kwPdffit then .error .sfe else .ok h
+    | _ => .error .sfe
+  else .ok h
+
+def pdffitHeader : List Str → PHdr → PRes (PHdr × List Str)
+  | [], h => .ok (h, [])
+  | line :: rest, h =>
+    match splitWs line with
+    | [] => pdffitHeader rest h
+    | w0 :: ws =>
+      if w0.head? = some '#' then pdffitHeader rest h
+      else if w0 = kwAtoms ∧ h.cellRead = true then .ok (h, rest)
+      else match pdffitRecord h line (w0 :: ws) w0 with
+        | .error k => .error k
+        | .ok h' => pdffitHeader rest h'
+
+def tok3 (ws : List Str) : Option V3 :=
+  match ws with
+  | a :: b :: c :: _ => match parseDec a, parseDec b, parseDec c with
+    | some x, some y, some z => some ⟨x, y, z⟩
+    | _, _, _ => none
+  | _ => none
+
+/-- the six-line atom blocks -/
+def pdffitAtoms : List Str → PRes (List PFAtom)
+  | [] => .ok []
+  | l1 :: l2 :: l3 :: l4 :: l5 :: l6 :: rest =>
+    match splitWs l1, splitWs l2 with
+    | w0 :: w1, s0 :: s1 :: s2 :: s3 :: _ =>
+      match tok3 w1, (w1.drop 3).head?.bind parseDec, tok3 [s0, s1, s2], parseDec s3,
+            tok3 (splitWs l3), tok3 (splitWs l4), tok3 (splitWs l5), tok3 (splitWs l6) with
+      | some p, some o, some sp', some so, some u, some su, some uj, some suj =>
+        match pdffitAtoms rest with
+        | .ok as => .ok (⟨capitalize w0, p, o, sp', so, u, su, uj, suj⟩ :: as)
+        | .error k => .error k
+      | _, _, _, _, _, _, _, _ => .error .sfe
+    | _, _ => .error .sfe
+  | _ => .error .sfe
+
+def parsePdffit (lines : List Str) : PRes PdffitS :=
+  match pdffitHeader (dropTrailingBlank lines) PHdr.init with
+  | .error k => .error k
+  | .ok (h, rest) =>
+    if h.cellRead = false then .error .sfe else
+    match pdffitAtoms rest with
+    | .error k => .error k
+    | .ok atoms =>
+      if intProd h.ncell ≠ (atoms.length : Int) then .error .sfe
+      else if h.ncell.take 3 ≠ [1, 1, 1] then .error .unmodelled
+      else .ok ⟨h.title, h.scale, h.delta2, h.delta1, h.sratio, h.rcut, h.spcgr, h.spd, h.stepcut,
+                h.cell, h.dcell, atoms⟩
+
+def V3.map (f : Rat → Rat) (v : V3) : V3 := ⟨f v.x, f v.y, f v.z⟩
+
+def quantPFAtom (a : PFAtom) : PFAtom :=
+  ⟨capitalize (upper a.el), a.pos.map (roundTo 8), roundTo 4 a.occ, a.sigpos.map (roundTo 8), roundTo 4 a.sigo,
+   a.uii.map (roundTo 8), a.suii.map (roundTo 8), a.uij.map (roundTo 8), a.suij.map (roundTo 8)⟩
+
+def quantPdffit (d : PdffitS) : PdffitS :=
+  ⟨strip d.title, roundTo 6 d.scale, roundTo 6 d.delta2, roundTo 6 d.delta1, roundTo 6 d.sratio, roundTo 6 d.rcut,
+   strip d.spcgr, quantShape d.spd, quantShape d.stepcut, d.cell.map (roundTo 6), d.dcell.map (roundTo 6),
+   d.atoms.map quantPFAtom⟩
+
+def rangePdffit (d : PdffitS) : Bool :=
+  lineOk d.title && lineOk d.spcgr && d.atoms.all (fun a => elemOk a.el)
+
+def reprPdffit (d : PdffitS) : Bool := rangePdffit d
+
+def writeTextPdffit (d : PdffitS) : Str := toText (writePdffit d)
+def parseTextPdffit (t : Str) : PRes PdffitS := parsePdffit (ofText t)
+
+
+/-! ## PDB (`p_pdb.py`): fixed columns -/
+
+structure PdbAtom where
+  name : Str          -- `a.label or a.element`, columns 13-16
+  el : Str            -- columns 77-78
+  pos : V3            -- Cartesian, `%8.3f`
+  occ : Rat           -- `%6.2f`
+  b : Rat             -- `%6.2f`
+  aniso : Option (List Int)   -- the six `numpy.around(1e4 * U)` integers of an ANISOU record
+deriving DecidableEq
+
+structure PdbS where
+  title : Str
+  cell : Option Cell6     -- `none`: the default unit cell, no CRYST1 record
+  atoms : List PdbAtom
+deriving DecidableEq
+
+def kwTITLE : Str := ['T', 'I', 'T', 'L', 'E']
+def kwCRYST1 : Str := ['C', 'R', 'Y', 'S', 'T', '1']
+def kwATOM : Str := ['A', 'T', 'O', 'M']
+def kwHETATM : Str := ['H', 'E', 'T', 'A', 'T', 'M']
+def kwANISOU : Str := ['A', 'N', 'I', 'S', 'O', 'U']
+def kwSIGATM : Str := ['S', 'I', 'G', 'A', 'T', 'M']
+def kwSIGUIJ : Str := ['S', 'I', 'G', 'U', 'I', 'J']
+def kwTER : Str := ['T', 'E', 'R']
+def kwEND : Str := ['E', 'N', 'D']
+def kwSCALE (k : Char) : Str := ['S', 'C', 'A', 'L', 'E', k]
+
+/-- the other record names of `P_pdb.orderOfRecords` (accepted and ignored by the reader) -/
+def pdbOtherRecords : List Str :=
+  ["HEADER", "OBSLTE", "CAVEAT", "COMPND", "SOURCE", "KEYWDS", "EXPDTA", "AUTHOR", "REVDAT", "SPRSDE", "JRNL",
+   "REMARK", "DBREF", "SEQADV", "SEQRES", "MODRES", "HET", "HETNAM", "HETSYN", "FORMUL", "HELIX", "SHEET", "TURN",
+   "SSBOND", "LINK", "HYDBND", "SLTBRG", "CISPEP", "SITE", "ORIGX1", "ORIGX2", "ORIGX3", "MTRIX1", "MTRIX2",
+   "MTRIX3", "TVECT", "MODEL", "TER", "ENDMDL", "CONECT", "MASTER", "END"].map String.toList
+
+/-- `title.rfind(" ", 10, 60)`: the last blank among the indices 10..59, if any -/
+def rfindSpace (t : Str) : Option Nat :=
+  (((t.take 60).zipIdx.drop 10).filter (fun p => p.1 == ' ')).getLast?.map (·.2)
+
+/-- the chunks `titleLines` cuts the title into (at most 60 characters each) -/
+def titleChunks (fuel : Nat) (t : Str) : List Str :=
+  match fuel with
+  | 0 => []
+  | fuel + 1 =>
+    if t.isEmpty then [] else
+    let stop := if t.length > 60 then (rfindSpace t).getD 60 else t.length
+    t.take stop :: titleChunks fuel (t.drop stop)
+
+def pdbTitleLine (k : Nat) (chunk : Str) : Str :=
+  padRight 80 (kwTITLE ++ sp 3 ++ (if k = 0 then sp 2 else fmtI 2 ((k : Int) + 1)) ++ chunk)
+
+def pdbTitleLines (t : Str) : List Str :=
+  (titleChunks (t.length + 1) t).zipIdx.map (fun p => pdbTitleLine p.2 p.1)
+
+def pdbCrystLine (c : Cell6) : Str :=
+  padRight 80 (kwCRYST1 ++ (fmtF 9 3 c.a ++ (fmtF 9 3 c.b ++ (fmtF 9 3 c.c ++ (fmtF 7 2 c.al ++ (fmtF 7 2 c.be ++ fmtF 7 2 c.ga))))))
+
+/-- columns 17-30 of an ATOM record as the writer fills them: altLoc ` `, resName `   `, ` `,
+chainID ` `, resSeq `   1`, iCode ` `, `   ` -/
+def pdbMid : Str := sp 9 ++ '1' :: sp 4
+
+/-- the ATOM record (`%c` of a blank = one blank; resName, segID, charge are empty strings);
+columns: 1-6 `ATOM  `, 7-11 serial, 12 blank, 13-16 name, 17-30 `pdbMid`, 31-54 x y z, 55-60 occupancy,
+61-66 B, 67-76 blank, 77-78 element, 79-80 charge -/
+def pdbAtomLine (serial : Nat) (a : PdbAtom) : Str :=
+  kwATOM ++ (sp 2 ++ (fmtI 5 serial ++ (sp 1 ++ (padRight 4 a.name ++ (pdbMid ++
+  (fmtF 8 3 a.pos.x ++ (fmtF 8 3 a.pos.y ++ (fmtF 8 3 a.pos.z ++ (fmtF 6 2 a.occ ++ (fmtF 6 2 a.b ++ (sp 10 ++
+  (padLeft 2 a.el ++ sp 2))))))))))))
+
+def pdbAnisouLine (atomline : Str) (u : List Int) : Str :=
+  kwANISOU ++ (slice 6 27 atomline ++ (sp 1 ++ ((u.map (fmtI 7)).flatten ++ (sp 2 ++ slice 72 80 atomline))))
+
+def pdbAtomLines (serial : Nat) (a : PdbAtom) : List Str :=
+  let l := pdbAtomLine serial a
+  match a.aniso with
+  | none => [l]
+  | some u => [l, pdbAnisouLine l u]
+
+def pdbAtomsLines : Nat → List PdbAtom → List Str
+  | _, [] => []
+  | k, a :: as => pdbAtomLines (k + 1) a ++ pdbAtomsLines (k + 1) as
+
+def pdbTerLine (n : Nat) : Str :=
+  kwTER ++ sp 3 ++ fmtI 5 ((n : Int) + 1) ++ sp 6 ++ sp 3 ++ sp 1 ++ sp 1 ++ fmtI 4 1 ++ sp 1 ++ padLeft 53 (sp 1)
+
+def writePdb (d : PdbS) : List Str :=
+  pdbTitleLines d.title ++ (match d.cell with | none => [] | some c => [pdbCrystLine c]) ++
+  pdbAtomsLines 0 d.atoms ++ [pdbTerLine d.atoms.length, padRight 80 kwEND]
+
+/-- reader state: atoms in reverse order (the last atom first) -/
+structure PdbSt where
+  title : Str
+  cell : Option Cell6
+  ratoms : List PdbAtom
+
+def floatOr (s : Str) (dflt : Rat) : Rat := (pyFloat s).getD dflt
+
+def pdbRecord (st : PdbSt) (line : Str) (record : Str) : PRes PdbSt :=
+  if record = kwTITLE then
+    if (strip (slice 8 10 line)).isEmpty then .ok { st with title := rstrip (line.drop 10) }
+    else .ok { st with title := st.title ++ rstrip (line.drop 10) }
+  else if record = kwCRYST1 then
+    match pyFloat (slice 7 15 line), pyFloat (slice 15 24 line), pyFloat (slice 24 33 line),
+          pyFloat (slice 33 40 line), pyFloat (slice 40 47 line), pyFloat (slice 47 54 line) with
+    | some a, some b, some c, some al, some be, some ga => .ok { st with cell := some ⟨a, b, c, al, be, ga⟩ }
+    | _, _, _, _, _, _ => .error .sfe
+  else if record = kwSCALE '1' ∨ record = kwSCALE '2' ∨ record = kwSCALE '3' then .error .unmodelled
+  else if record = kwATOM ∨ record = kwHETATM then
+    let name := strip (slice 12 16 line)
+    match (splitWs (slice 30 54 line)).mapM parseDec with
+    | some [x, y, z] =>
+      let occ := floatOr (slice 54 60 line) 1
+      let b := floatOr (slice 60 66 line) 0
+      let el := strip (slice 76 78 line)
+      if el.isEmpty then
+        let e2 := strip (slice 12 14 line)
+        if e2.isEmpty then .error .sfe
+        else .ok { st with ratoms := ⟨name, capitalize e2, ⟨x, y, z⟩, occ, b, none⟩ :: st.ratoms }
+      else .ok { st with ratoms := ⟨name, el, ⟨x, y, z⟩, occ, b, none⟩ :: st.ratoms }
+    | _ => .error .sfe
+  else if record = kwSIGATM ∨ record = kwANISOU ∨ record = kwSIGUIJ then
+    match st.ratoms with
+    | [] => .error .sfe
+    | last :: before =>
+      if record = kwANISOU then
+        match (splitWs (slice 28 70 line)).mapM parseDec with
+        | some (u0 :: u1 :: u2 :: u3 :: u4 :: u5 :: _) =>
+          -- the model keeps the printed integers (unit 1e-4 Å²); a non-integer field is outside it
+          match [u0, u1, u2, u3, u4, u5].mapM (fun q => if q.den = 1 then some q.num else none) with
+          | some us => .ok { st with ratoms := { last with aniso := some us } :: before }
+          | none => .error .unmodelled
+        | _ => .error .sfe
+      else .error .unmodelled
+  else if pdbOtherRecords.contains record then .ok st
+  else .error .sfe
+
+def pdbLoop : List Str → PdbSt → PRes PdbSt
+  | [], st => .ok st
+  | line :: rest, st =>
+    if (strip line).isEmpty then pdbLoop rest st else
+    let line := if line.length < 80 then padRight 80 line else line
+    match splitWs line with
+    | [] => pdbLoop rest st
+    | record :: _ =>
+      match pdbRecord st line record with
+      | .error k => .error k
+      | .ok st' => pdbLoop rest st'
+
+def parsePdb (lines : List Str) : PRes PdbS :=
+  match pdbLoop lines ⟨[], none, []⟩ with
+  | .error k => .error k
+  | .ok st => .ok ⟨st.title, st.cell, st.ratoms.reverse⟩
+
+def quantPdbAtom (a : PdbAtom) : PdbAtom :=
+  ⟨a.name, a.el, a.pos.map (roundTo 3), roundTo 2 a.occ, roundTo 2 a.b, a.aniso⟩
+
+def quantPdbCell (c : Cell6) : Cell6 :=
+  ⟨roundTo 3 c.a, roundTo 3 c.b, roundTo 3 c.c, roundTo 2 c.al, roundTo 2 c.be, roundTo 2 c.ga⟩
+
+def quantPdbTitle (t : Str) : Str := ((titleChunks (t.length + 1) t).map rstrip).flatten
+
+def quantPdb (d : PdbS) : PdbS := ⟨quantPdbTitle d.title, d.cell.map quantPdbCell, d.atoms.map quantPdbAtom⟩
+
+def fitsF (w p : Nat) (x : Rat) : Bool := decide ((fmtFbody p x).length ≤ w)
+def fitsI (w : Nat) (n : Int) : Bool := decide ((fmtIbody n).length ≤ w)
+
+def pdbAnisoOk (u : List Int) : Bool :=
+  match u with
+  | [u0, u1, u2, u3, u4, u5] => fitsI 7 u0 && fitsI 6 u1 && fitsI 6 u2 && fitsI 6 u3 && fitsI 6 u4 && fitsI 6 u5
+  | _ => false
+
+/-- an atom that fits the columns: name of 1-4 and element of 1-2 printable characters, `x` in 8
+columns, `y`, `z` in 7 (they need the blank that separates them from their left neighbour),
+occupancy and B in 6, ANISOU integers in 7 resp. 6 columns -/
+def pdbAtomOk (a : PdbAtom) : Bool :=
+  elemOk a.name && decide (a.name.length ≤ 4) && elemOk a.el && decide (a.el.length ≤ 2) &&
+  fitsF 8 3 a.pos.x && fitsF 7 3 a.pos.y && fitsF 7 3 a.pos.z && fitsF 6 2 a.occ && fitsF 6 2 a.b &&
+  (match a.aniso with | none => true | some u => pdbAnisoOk u)
+
+def pdbCellOk (c : Cell6) : Bool :=
+  fitsF 8 3 c.a && fitsF 9 3 c.b && fitsF 9 3 c.c && fitsF 7 2 c.al && fitsF 7 2 c.be && fitsF 7 2 c.ga
+
+/-- representable in PDB; titles of at most 60 characters (one TITLE record) in the theorem, longer
+ones are exercised by the correspondence only -/
+def rangePdb (d : PdbS) : Bool :=
+  lineOk d.title && decide (d.title.length ≤ 60) && (match d.cell with | none => true | some c => pdbCellOk c) &&
+  d.atoms.all pdbAtomOk && decide (d.atoms.length ≤ 9998)
+
+def reprPdb (d : PdbS) : Bool := rangePdb d
+
+def writeTextPdb (d : PdbS) : Str := toText (writePdb d)
+def parseTextPdb (t : Str) : PRes PdbS := parsePdb (ofText t)
+
+/-! ## wire format -/
+
+def showPAtom (a : PAtom) : String :=
+  s!"{encodeStr a.el} {showRat a.x} {showRat a.y} {showRat a.z}"
+
+def readPAtoms : List String → Option (List PAtom)
+  | [] => some []
+  | e :: x :: y :: z :: rest =>
+    match decodeStr e, parseRat x, parseRat y, parseRat z, readPAtoms rest with
+    | some e, some x, some y, some z, some as => some (⟨e, x, y, z⟩ :: as)
+    | _, _, _, _, _ => none
+  | _ => none
+
+def showErr : PErr → String
+  | .sfe => "StructureFormatError"
+  | .notImpl => "NotImplementedError"
+  | .unmodelled => "unmodelled"
+
+def showXyz (d : XyzS) : String :=
+  s!"ok {encodeStr d.title} {d.atoms.length}" ++ String.join (d.atoms.map (fun a => " " ++ showPAtom a))
+
+def showRawRes (r : PRes (List PAtom)) : String :=
+  match r with
+  | .error k => showErr k
+  | .ok as => s!"ok {as.length}" ++ String.join (as.map (fun a => " " ++ showPAtom a))
+
+def showXyzRes (r : PRes XyzS) : String :=
+  match r with
+  | .error k => showErr k
+  | .ok d => showXyz d
+
+/-- `xyz.write <title> <atoms…>` → text lines · `xyz.quant …` → quantised document ·
+`xyz.repr …` → `true|false` · `xyz.parse <line>…` → document read from real text (lines encoded) -/
+def xyzHandle (ws : List String) : Option String :=
+  match ws with
+  | "fmt.xyz.write" :: t :: rest =>
+    match decodeStr t, readPAtoms rest with
+    | some t, some as => some (encodeLines (writeXyz ⟨t, as⟩))
+    | _, _ => some "bad-op"
+  | "fmt.xyz.quant" :: t :: rest =>
+    match decodeStr t, readPAtoms rest with
+    | some t, some as => some (showXyz (quantXyz ⟨t, as⟩))
+    | _, _ => some "bad-op"
+  | "fmt.xyz.repr" :: t :: rest =>
+    match decodeStr t, readPAtoms rest with
+    | some t, some as => some s!"repr={reprXyz ⟨t, as⟩} range={rangeXyz ⟨t, as⟩}"
+    | _, _ => some "bad-op"
+  | "fmt.xyz.trip" :: t :: rest =>
+    match decodeStr t, readPAtoms rest with
+    | some t, some as => some (showXyzRes (parseTextXyz (writeTextXyz ⟨t, as⟩)))
+    | _, _ => some "bad-op"
+  | "fmt.xyz.parse" :: rest =>
+    match rest.mapM decodeStr with
+    | some ls => some (showXyzRes (parseXyz ls))
+    | none => some "bad-op"
+  | "fmt.rawxyz.write" :: rest =>
+    match readPAtoms rest with
+    | some as => some (encodeLines (writeRaw as))
+    | none => some "bad-op"
+  | "fmt.rawxyz.quant" :: rest =>
+    match readPAtoms rest with
+    | some as => some (showRawRes (.ok (quantRaw as)))
+    | none => some "bad-op"
+  | "fmt.rawxyz.repr" :: rest =>
+    match readPAtoms rest with
+    | some as => some s!"repr={reprRaw as} range={reprRaw as}"
+    | none => some "bad-op"
+  | "fmt.rawxyz.trip" :: rest =>
+    match readPAtoms rest with
+    | some as => some (showRawRes (parseTextRaw (writeTextRaw as)))
+    | none => some "bad-op"
+  | "fmt.rawxyz.parse" :: rest =>
+    match rest.mapM decodeStr with
+    | some ls => some (showRawRes (parseRaw ls))
+    | none => some "bad-op"
+  | _ => none
+
+
+/-! ### word-stream reader for the wire format -/
+
+abbrev Rd := StateT (List String) Option
+
+def rdWord : Rd String := do
+  match (← get) with
+  | w :: ws => set ws; pure w
+  | [] => failure
+
+def rdStr : Rd Str := do
+  match decodeStr (← rdWord) with
+  | some s => pure s
+  | none => failure
+
+def rdRat : Rd Rat := do
+  match parseRat (← rdWord) with
+  | some s => pure s
+  | none => failure
+
+def rdNat : Rd Nat := do
+  match (← rdWord).toNat? with
+  | some s => pure s
+  | none => failure
+
+def rdV3 : Rd V3 := do
+  let x ← rdRat; let y ← rdRat; let z ← rdRat; pure ⟨x, y, z⟩
+
+def rdCell : Rd Cell6 := do
+  let a ← rdRat; let b ← rdRat; let c ← rdRat; let al ← rdRat; let be ← rdRat; let ga ← rdRat
+  pure ⟨a, b, c, al, be, ga⟩
+
+def rdN (p : Rd α) : Nat → Rd (List α)
+  | 0 => pure []
+  | n + 1 => do let a ← p; let as ← rdN p n; pure (a :: as)
+
+def rdAll (p : Rd α) (ws : List String) : Option α :=
+  match p.run ws with
+  | some (a, []) => some a
+  | _ => none
+
+def shV3 (v : V3) : String := s!"{showRat v.x} {showRat v.y} {showRat v.z}"
+def shCell (c : Cell6) : String := " ".intercalate (c.toList.map showRat)
+
+def rdDiscus : Rd DiscusS := do
+  let title ← rdStr; let spcgr ← rdStr; let spd ← rdRat; let stepcut ← rdRat; let cell ← rdCell
+  let n ← rdNat
+  let atoms ← rdN (do let e ← rdStr; let p ← rdV3; let b ← rdRat; pure (⟨e, p, b⟩ : DAtom)) n
+  pure ⟨title, spcgr, spd, stepcut, cell, atoms⟩
+
+def showDiscus (d : DiscusS) : String :=
+  s!"ok {encodeStr d.title} {encodeStr d.spcgr} {showRat d.spd} {showRat d.stepcut} {shCell d.cell} {d.atoms.length}" ++
+  String.join (d.atoms.map (fun a => s!" {encodeStr a.el} {shV3 a.pos} {showRat a.b}"))
+
+def rdPdffit : Rd PdffitS := do
+  let title ← rdStr; let scale ← rdRat; let d2 ← rdRat; let d1 ← rdRat; let sr ← rdRat; let rc ← rdRat
+  let spcgr ← rdStr; let spd ← rdRat; let stepcut ← rdRat; let cell ← rdCell; let dcell ← rdCell
+  let n ← rdNat
+  let atoms ← rdN (do
+    let e ← rdStr; let p ← rdV3; let o ← rdRat; let sp' ← rdV3; let so ← rdRat
+    let u ← rdV3; let su ← rdV3; let uj ← rdV3; let suj ← rdV3
+    pure (⟨e, p, o, sp', so, u, su, uj, suj⟩ : PFAtom)) n
+  pure ⟨title, scale, d2, d1, sr, rc, spcgr, spd, stepcut, cell, dcell, atoms⟩
+
+def showPdffit (d : PdffitS) : String :=
+  s!"ok {encodeStr d.title} {showRat d.scale} {showRat d.delta2} {showRat d.delta1} {showRat d.sratio} {showRat d.rcut} " ++
+  s!"{encodeStr d.spcgr} {showRat d.spd} {showRat d.stepcut} {shCell d.cell} {shCell d.dcell} {d.atoms.length}" ++
+  String.join (d.atoms.map (fun a =>
+    s!" {encodeStr a.el} {shV3 a.pos} {showRat a.occ} {shV3 a.sigpos} {showRat a.sigo} {shV3 a.uii} {shV3 a.suii} {shV3 a.uij} {shV3 a.suij}"))
+
+def showRes (sh : α → String) (r : PRes α) : String :=
+  match r with
+  | .error k => showErr k
+  | .ok d => sh d
+
+/-- the five commands of one format: `write`, `quant`, `repr`, `trip` take a document,
+`parse` takes encoded lines -/
+def formatHandle (name : String) (rd : Rd α) (sh : α → String) (write : α → List Str) (quant : α → α)
+    (repr range : α → Bool) (parse : List Str → PRes α) (ws : List String) : Option String :=
+  match ws with
+  | cmd :: rest =>
+    if cmd == s!"fmt.{name}.parse" then
+      match rest.mapM decodeStr with
+      | some ls => some (showRes sh (parse ls))
+      | none => some "bad-op"
+    else if cmd == s!"fmt.{name}.write" || cmd == s!"fmt.{name}.quant" || cmd == s!"fmt.{name}.repr"
+        || cmd == s!"fmt.{name}.trip" then
+      match rdAll rd rest with
+      | none => some "bad-op"
+      | some d =>
+        if cmd == s!"fmt.{name}.write" then some (encodeLines (write d))
+        else if cmd == s!"fmt.{name}.quant" then some (sh (quant d))
+        else if cmd == s!"fmt.{name}.repr" then some s!"repr={repr d} range={range d}"
+        else some (showRes sh (parse (ofText (toText (write d)))))
+    else none
+  | [] => none
+
+
+def rdOpt (p : Rd α) : Rd (Option α) := do
+  let w ← rdWord
+  if w == "some" then (do let a ← p; pure (some a)) else if w == "none" then pure none else failure
+
+def rdInt : Rd Int := do
+  match (← rdWord).toInt? with
+  | some s => pure s
+  | none => failure
+
+def rdPdb : Rd PdbS := do
+  let title ← rdStr
+  let cell ← rdOpt rdCell
+  let n ← rdNat
+  let atoms ← rdN (do
+    let name ← rdStr; let el ← rdStr; let p ← rdV3; let o ← rdRat; let b ← rdRat
+    let u ← rdOpt (rdN rdInt 6)
+    pure (⟨name, el, p, o, b, u⟩ : PdbAtom)) n
+  pure ⟨title, cell, atoms⟩
+
+def shOpt (sh : α → String) : Option α → String
+  | none => "none"
+  | some a => "some " ++ sh a
+
+def showPdb (d : PdbS) : String :=
+  s!"ok {encodeStr d.title} {shOpt shCell d.cell} {d.atoms.length}" ++
+  String.join (d.atoms.map (fun a =>
+    s!" {encodeStr a.name} {encodeStr a.el} {shV3 a.pos} {showRat a.occ} {showRat a.b} " ++
+    shOpt (fun u => " ".intercalate (u.map toString)) a.aniso))
+
+def pdbHandle := formatHandle "pdb" rdPdb showPdb writePdb quantPdb reprPdb rangePdb parsePdb
+
+def discusHandle := formatHandle "discus" rdDiscus showDiscus writeDiscus quantDiscus reprDiscus rangeDiscus parseDiscus
+def pdffitHandle := formatHandle "pdffit" rdPdffit showPdffit writePdffit quantPdffit reprPdffit rangePdffit parsePdffit
 
 end DS.Formats
 
 namespace DS
 /-- driver handler of C04: the text layer (`fmt.f`, `fmt.g`, …) and the per-format models -/
 def fmtHandle (ws : List String) : Option String :=
-  DS.Dec.decHandle ws
+  [DS.Dec.decHandle, DS.Formats.xyzHandle, DS.Formats.discusHandle, DS.Formats.pdffitHandle, DS.Formats.pdbHandle].findSome? (fun h => h ws)
 end DS
